@@ -96,12 +96,25 @@ class BeartypeValidatorUnaryABC(BeartypeValidator, metaclass=ABCMeta):
         **kwargs
     ) -> str:
 
+        # True only if this object satisfies this negated validator *OR* "None"
+        # if this negated validator has already been short-circuited by a parent
+        # validator and testing this object against this negated validator
+        # raises an exception. See the binary validator for further details.
+        is_obj_valid = None
+        if kwargs.get('is_shortcircuited', False):
+            try:
+                is_obj_valid = self.is_valid(obj)
+            except Exception:
+                pass
+        else:
+            is_obj_valid = self.is_valid(obj)
+
         # Line diagnosing this object against this negated parent validator.
         line_outer_prefix = format_diagnosis_line(
             validator_repr='(',
             indent_level_outer=indent_level_outer,
             indent_level_inner=indent_level_inner,
-            is_obj_valid=self.is_valid(obj),
+            is_obj_valid=is_obj_valid,
         )
 
         # Line diagnosing this object against this non-negated child validator
